@@ -457,6 +457,26 @@ def run_case(case, ctx):
                             w = "ValueError"
                         if a != w:
                             fails.append("cursor[%r:%r:%r] gives %s, the id list gives %s" % (op[1], op[2], op[3], a, w))
+                        elif w != "ValueError":
+                            # whatever a slice is (iterator or cursor), it answers membership and - if it has one - len()
+                            # for the SLICED jobs, not for the cursor it was cut from
+                            want_ids = ids[op[1]:op[2]:op[3]]
+                            for i in order[:6] + [foreign.id]:
+                                job = foreign if i == foreign.id else project.open_job(id=i)
+                                try:
+                                    got_in = job in cursor[op[1]:op[2]:op[3]]
+                                except Exception as e:  # noqa: BLE001
+                                    got_in = exc_name(e)
+                                if got_in != (i in want_ids):
+                                    fails.append("(job %s in cursor[%r:%r:%r]) is %s, the sliced id list %s it" % (
+                                        i, op[1], op[2], op[3], got_in, "holds" if i in want_ids else "does not hold"))
+                            try:
+                                got_len = len(cursor[op[1]:op[2]:op[3]])
+                            except TypeError:
+                                got_len = None
+                            if got_len is not None and got_len != len(want_ids):
+                                fails.append("len(cursor[%r:%r:%r]) = %d, the slice yields %d jobs" % (
+                                    op[1], op[2], op[3], got_len, len(want_ids)))
                     elif op[0] == "in":
                         w = "T" if op[1] in ids else "F"
                         if a != w:
